@@ -115,3 +115,68 @@ def nfa_text(c):
         for q1 in qs:
             lines.append('%s %s %s' % (q, q1, a if a != c['eps'] else eps))
     return '\n'.join(lines)
+
+
+# ---------------------------------------------------------------- context-free grammars
+def cfg_obj(c):
+    from gambatools.cfg import CFG, Rule, Alternative, Variable, Terminal
+    mk = lambda s: Variable(s[1]) if s[0] == 'V' else Terminal(s[1])
+    R = [Rule(Variable(v), Alternative([mk(s) for s in rhs])) for (v, rhs) in c['R']]
+    return CFG(set(Variable(v) for v in c['V']), set(Terminal(t) for t in c['Sigma']), R, Variable(c['S']), check_validity=False)
+
+
+def cfg_case(G):
+    from gambatools.cfg import Variable
+    ids = {}
+    R, rid = [], []
+    for r in G.R:
+        R.append([str(r.variable), [['V' if isinstance(s, Variable) else 'T', str(s)] for s in r.alternative.symbols]])
+        rid.append(ids.setdefault(id(r.alternative), len(ids)))
+    return {'V': sorted(str(v) for v in G.V), 'Sigma': sorted(str(t) for t in G.Sigma), 'R': R, 'S': str(G.S), 'rid': rid}
+
+
+def cfg_text(c):
+    lines = []
+    for v, rhs in c['R']:
+        lines.append('%s -> %s' % (v, ' '.join(s[1] for s in rhs) if rhs else 'ε'))
+    return 'start %s; V = %s; Sigma = %s\n' % (c['S'], ' '.join(c['V']), ' '.join(c['Sigma'])) + '\n'.join(lines)
+
+
+def cfg_simple_text(c):
+    """the grammar in the simple text format (single-character names), start variable first"""
+    order, rules = [], {}
+    for v, rhs in c['R']:
+        if v not in rules:
+            rules[v] = []
+            order.append(v)
+        rules[v].append(''.join(s[1] for s in rhs) if rhs else '_')
+    if c['S'] in order:
+        order.remove(c['S'])
+        order.insert(0, c['S'])
+    return '\n'.join('%s -> %s' % (v, ' | '.join(rules[v])) for v in order)
+
+
+# ---------------------------------------------------------------- PDAs
+def pda_obj(c):
+    from collections import defaultdict
+    from gambatools.pda import PDA
+    delta = defaultdict(set)
+    for (p, a, u, q, v) in c['delta']:
+        delta[(p, a, u)].add((q, v))
+    return PDA(set(c['Q']), set(c['Sigma']), set(c['Gamma']), delta, c['q0'], set(c['F']), c['eps'])
+
+
+def pda_case(P):
+    return {'Q': sorted(P.Q), 'Sigma': sorted(P.Sigma), 'Gamma': sorted(P.Gamma),
+            'delta': sorted([p, a, u, q, v] for (p, a, u), tg in P.delta.items() for (q, v) in tg),
+            'q0': P.q0, 'F': sorted(P.F), 'eps': P.epsilon}
+
+
+def pda_text(c):
+    eps = c['eps'] if c['eps'] else "''"
+    e = lambda x: eps if x == c['eps'] else x
+    lines = ['states ' + ' '.join(c['Q']), 'initial ' + c['q0'], 'final ' + ' '.join(c['F']), 'input_symbols ' + ' '.join(c['Sigma']),
+             'stack_symbols ' + ' '.join(c['Gamma']), 'epsilon ' + eps]
+    for (p, a, u, q, v) in c['delta']:
+        lines.append('%s %s %s,%s%s' % (p, q, e(a), e(u), e(v)))
+    return '\n'.join(lines)
